@@ -184,7 +184,7 @@ def run(prop, tier, seed, replay=None, rep=None, finish=True):
                 combos = [(s_, d_, o_) for s_ in ('tigerxml', 'brackets', 'discobrackets')
                           for (d_, o_) in (('export', ['export_four']), ('export', []), ('tigerxml', []),
                                            ('export', ['gf']), ('discobrackets', ['gf']))]
-                for j, (s_, d_, o_) in enumerate(combos * (1 if tier == 'quick' else 6)):
+                for j, (s_, d_, o_) in enumerate(combos * (2 if tier == 'quick' else 6)):
                     st = one[j % len(one)]
                     Ts = [rnd.choice(pool[(t['len'], False)]) for t in st['src'][0] if pool.get((t['len'], False))]
                     if Ts:
